@@ -13,11 +13,11 @@ type Claim struct {
 	Kind string // alive | suspect | dead | left | pp-alive | pp-suspect | pp-dead | pp-left
 	Node string
 	Inc  uint32
-	Addr []byte `json:",omitempty"` // alive / pp
-	Port uint16 `json:",omitempty"`
-	Meta []byte `json:",omitempty"`
+	Addr []byte  `json:",omitempty"` // alive / pp
+	Port uint16  `json:",omitempty"`
+	Meta []byte  `json:",omitempty"`
 	Vsn  []uint8 `json:",omitempty"`
-	From string `json:",omitempty"` // suspect / dead: accuser
+	From string  `json:",omitempty"` // suspect / dead: accuser
 }
 
 // Strength in the SWIM precedence order: alive 0 < suspect 1 < dead = left 2.
